@@ -22,6 +22,7 @@ SKELETON = {
     "t.bitproto": """proto t
 
 const EARLY = 2
+const EARLY_STR = "one\\ntwo\\n\\n\\tq\\"x\\" \\\\n"
 
 message Early {
     bool e = 1
@@ -71,6 +72,7 @@ const LATER = 1
 @TOP2@
 """,
     "lib.bitproto": """proto lib
+const LSTR = "l\\n\\n"
 @LIBTOP@
 const LK = 2
 
@@ -85,6 +87,7 @@ message LM {
 }
 """,
     "lia.bitproto": """proto lia
+const ASTR = "\\n"
 @LIATOP@
 const AK = 5
 
@@ -96,6 +99,14 @@ message AM {
     "cyc.bitproto": """proto cyc
 
 import "t.bitproto"
+""",
+    "sub/cyc2.bitproto": """proto cyc2
+
+import "../t.bitproto"
+""",
+    "sub/inner.bitproto": """proto inner
+
+const IK = 1
 """,
 }
 
@@ -248,6 +259,12 @@ add("import:itself", "top", 'import "t.bitproto"', False, only=["TOP0", "TOP1", 
 add("import:cycle", "top", 'import "cyc.bitproto"', False, only=["TOP0", "TOP1", "TOP2"])
 add("import:duplicate", "top", 'import "lib.bitproto"', False, only=["TOP0", "TOP1", "TOP2"])
 add("import:duplicate-as", "top", 'import zl "lib.bitproto"', False, only=["TOP0", "TOP1", "TOP2"])
+# the same FILE under another spelling of its path is still the same file (identity, not text)
+add("import:cycle-dot-spelling", "top", 'import "./cyc.bitproto"', False, only=["TOP0", "TOP1", "TOP2"])
+add("import:cycle-through-subdirectory", "top", 'import "sub/cyc2.bitproto"', False, only=["TOP0", "TOP1", "TOP2"])
+add("import:duplicate-dot-spelling-as", "top", 'import zl "./lib.bitproto"', False, only=["TOP0", "TOP1", "TOP2"])
+add("import:duplicate-subdirectory-spelling-as", "top", 'import zl "sub/../lib.bitproto"', False, only=["TOP0", "TOP1", "TOP2"])
+add("import:subdirectory-ok", "top", ['import "sub/inner.bitproto"', "const ZX = inner.IK + 1"], True, only=["TOP0", "TOP1", "TOP2"])
 add("import:same-name-twice", "top", 'import al "cyc2.bitproto"', False, only=["TOP0"])
 add("import:third-ok", "top", 'import "cyc2.bitproto"', True, only=["TOP0", "TOP1", "TOP2"])
 
@@ -310,6 +327,7 @@ def run_unit(unit):
             d = sc.sub("k%d" % k)
             files, target, span = materialise(case)
             for fn, tx in files.items():
+                os.makedirs(os.path.dirname(os.path.join(d, fn)), exist_ok=True)
                 with open(os.path.join(d, fn), "w") as f:
                     f.write(tx)
             out.count("states")
@@ -355,8 +373,8 @@ def run_unit(unit):
             lo_, hi_ = span
             ef = os.path.basename(err.filepath or "")
             el = err.lineno
-            if case["tag"] == "import:cycle":
-                ok = (ef == target and lo_ <= el <= hi_) or (ef == "cyc.bitproto" and el == 3)
+            if case["tag"].startswith("import:cycle"):
+                ok = (ef == target and lo_ <= el <= hi_) or (ef in ("cyc.bitproto", "cyc2.bitproto") and el == 3)
             else:
                 ok = ef in allowed_files and lo_ <= el <= hi_
             if not ok:
@@ -386,6 +404,7 @@ def run_cli(unit):
                 d = sc.sub("c%d%s" % (k, lang))
                 files, target, span = materialise(case)
                 for fn, tx in files.items():
+                    os.makedirs(os.path.dirname(os.path.join(d, fn)), exist_ok=True)
                     with open(os.path.join(d, fn), "w") as f:
                         f.write(tx)
                 r = subprocess.run([sys.executable, "-m", "bitproto._main", lang, "t.bitproto"], cwd=d, capture_output=True, text=True, env=env, timeout=120)
